@@ -392,6 +392,104 @@ func (r *endlessReader) Read(b []byte) (int, error) {
 	return n, nil
 }
 
+// stallReader: the given prefix, then a Read that does not return until the source is released (a stalled HTTP
+// body). consumed counts the bytes delivered.
+type stallReader struct {
+	prefix   []byte
+	release  chan struct{}
+	consumed int64
+}
+
+func (r *stallReader) Read(b []byte) (int, error) {
+	if len(r.prefix) > 0 {
+		n := copy(b, r.prefix)
+		r.prefix = r.prefix[n:]
+		atomic.AddInt64(&r.consumed, int64(n))
+		return n, nil
+	}
+	<-r.release
+	return 0, io.EOF
+}
+
+// lazyErr: a document whose beginning (prefix) makes the decoder fail, followed by a remainder that never ends
+// (fillKind 0, 1: endless well-formed filler with pre elements, as in lazy) or never comes (fillKind 2: the source
+// stalls). The caller reads with 16-byte buffers, at most maxReads times. The error must be RETURNED - after a
+// bounded part of the remainder has been consumed, without waiting for its end:
+//
+//	end=error:<class>|eof|data consumed=small|over:<n>      the Reads came back
+//	end=none consumed=<n>MiB-and-growing|stalled            a Read did not come back within the deadline
+func lazyErr(prefix []byte, fillKind, maxReads int) string {
+	line := "<!-- filler --> \n"
+	if fillKind == 1 {
+		line = "<p>text outside pre</p>\n"
+	}
+	unit := []byte(strings.Repeat(line, 64) + "<pre>QUJD</pre>\n")
+	var src io.Reader
+	var endless *endlessReader
+	var stall *stallReader
+	if fillKind == 2 {
+		stall = &stallReader{prefix: prefix, release: make(chan struct{})}
+		src = stall
+	} else {
+		endless = &endlessReader{prefix: prefix, unit: unit}
+		src = endless
+	}
+	consumed := func() int64 {
+		if stall != nil {
+			return atomic.LoadInt64(&stall.consumed)
+		}
+		return atomic.LoadInt64(&endless.consumed)
+	}
+	base, bw0 := runtime.NumGoroutine(), blockedWriters()
+	ch := make(chan string, 1)
+	go func() {
+		dec, err := amp.NewArmorDecoder(src)
+		if err != nil {
+			ch <- "error:" + class(err)
+			return
+		}
+		buf := make([]byte, 16)
+		for i := 0; i < maxReads; i++ {
+			_, err := dec.Read(buf)
+			if err == io.EOF {
+				ch <- "eof"
+				return
+			}
+			if err != nil {
+				ch <- "error:" + class(err)
+				return
+			}
+		}
+		ch <- "data"
+	}()
+	var out string
+	select {
+	case end := <-ch:
+		if stall != nil {
+			// the producer may be parked in the stalled source: let it go before waiting for it
+			close(stall.release)
+		}
+		settle(base, bw0)
+		c := consumed()
+		bucket := "small"
+		if c > int64(len(prefix)+len(unit))+3*65536 {
+			bucket = "over:" + strconv.FormatInt(c, 10)
+		}
+		out = "end=" + end + " consumed=" + bucket
+	case <-time.After(8 * time.Second):
+		if stall != nil {
+			out = "end=none consumed=stalled"
+			close(stall.release)
+		} else {
+			out = "end=none consumed=" + strconv.FormatInt(consumed()>>20, 10) + "MiB-and-growing"
+		}
+	}
+	if endless != nil {
+		atomic.StoreInt32(&endless.stop, 1)
+	}
+	return out
+}
+
 func lazy(prefix []byte, fillKind int) string {
 	line := "<!-- filler --> \n"
 	if fillKind == 1 {
@@ -448,7 +546,7 @@ func main() {
 		}
 		pi := 1
 		switch a[0] {
-		case "dec", "dec0", "mon", "lazy":
+		case "dec", "dec0", "mon", "lazy", "lazyerr":
 			// dec/mon <srcpat> <rbufpat> <doc> <hex>...
 			pi = 3
 		case "ahead", "aheadg":
@@ -523,6 +621,8 @@ func main() {
 			// filler that never ends; report how much of the source was consumed when the first decoded byte
 			// (or an error) is available. A streaming decoder needs about one tokenizer buffer.
 			return lazy(p, atoi(a[1]))
+		case "lazyerr":
+			return lazyErr(p, atoi(a[1]), atoi(a[2]))
 		case "mon":
 			var m0, m1 runtime.MemStats
 			runtime.GC()
